@@ -68,6 +68,13 @@ class IdxAnalyzer(Analyzer):
             st.sys.add_lt(t, v + Lin.const(1))
         return t
 
+    def _worth_inlining(self, callee):
+        """guards (a throw) or a small pure helper; large branchy functions without guards only multiply paths."""
+        if any(n['k'] == 'CXXThrowExpr' for _, n in callee.all_nodes()):
+            return True
+        nbranch = sum(1 for _, n in callee.all_nodes() if n['k'] in ('IfStmt', 'ConditionalOperator', 'ForStmt', 'WhileStmt'))
+        return nbranch <= 3
+
     def trunc_fork(self, v, st):
         """(int)x truncates toward zero: decide the sign by forking when the constraints do not."""
         if st.sys.entails_le(Lin.const(0), v) or st.sys.entails_le(v, Lin.const(0)):
@@ -125,11 +132,39 @@ class IdxAnalyzer(Analyzer):
     def subscript(self, f, nid, n, st):
         info = self._array_info(f, n['ch'][0])
         out = []
-        for _, s1 in self.ev(f, n['ch'][0], st) if f.nodes[f.strip_casts(n['ch'][0])]['k'] == 'ArraySubscriptExpr' else [(UNK, st)]:
+        base_n = f.nodes[f.strip_casts(n['ch'][0])]
+        nested = base_n['k'] == 'ArraySubscriptExpr'
+        inner = self._array_info(f, base_n['ch'][0]) if nested else None
+        # states in which the selecting index of ALPHASET[i][j] is a known constant (fork over its values)
+        sel_states = []
+        if nested and inner is not None and inner[0] == 'set':
+            for iv_, s1 in self.ev(f, n['ch'][0], st):       # evaluates (and checks) the inner subscript
+                pass
+            for iv_, s1 in self.ev(f, base_n['ch'][1], st):
+                if isinstance(iv_, Lin) and iv_.is_const and iv_.k.denominator == 1:
+                    sel_states.append((int(iv_.k), s1))
+                elif isinstance(iv_, Lin):
+                    for kk in range(len(inner[2])):
+                        for t, s2 in self.cmp_fork('==', iv_, Lin.const(kk), s1, None):
+                            if t:
+                                sel_states.append((kk, s2))
+                else:
+                    sel_states.append((None, s1))
+        else:
+            for _, s1 in (self.ev(f, n['ch'][0], st) if nested else [(UNK, st)]):
+                sel_states.append((None, s1))
+        for sel, s1 in sel_states:
             for idx, s2 in self.ev(f, n['ch'][1], s1):
                 val = UNK
-                if info is not None:
-                    kind, name, size = info
+                info2 = info
+                if nested and inner is not None and inner[0] == 'set':
+                    if sel is not None and 0 <= sel < len(inner[2]):
+                        info2 = ('alphabet', '%s[%d]' % (inner[1], sel), len(inner[2][sel]))
+                    else:
+                        info2 = None
+                        self.check(f, nid, 'alphabet %s[?]' % inner[1], UNK, 0, s2)
+                if info2 is not None:
+                    kind, name, size = info2
                     if kind == 'table':
                         if isinstance(idx, Lin) and idx.is_const and idx.k.denominator == 1 and 0 <= int(idx.k) < len(size):
                             val = Lin.const(size[int(idx.k)])
@@ -240,12 +275,13 @@ class IdxAnalyzer(Analyzer):
             return out
         if q.endswith('numeric_limits::epsilon'):
             return [(Lin.const(F(1, 2 ** 52)), st)]
-        if q.endswith('numeric_limits::digits'):
-            return [(UNK, st)]
+        if q.endswith('numeric_limits::digits') or q == NS + 'Math::digits':
+            prec = self.ctx.prog.raw.get('precision', 2)
+            return [(Lin.const({1: 24, 2: 53, 3: 64}.get(prec, 53)), st)]
         # in-repo callee with a body: inline it (guards prune, return value flows back)
         callee = self.prog.fns.get(ce.get('usr'))
         if callee is not None and inrepo and callee.d.get('body', -1) >= 0 and self.depth < 2 and \
-                len(callee.nodes) < 700 and not callee.is_ctor and \
+                len(callee.nodes) < 700 and not callee.is_ctor and self._worth_inlining(callee) and \
                 (ce.get('mstatic') or not ce.get('method') or n.get('objthis')) and \
                 not any(k_ in ('r', 'p') for k_ in ce.get('pk', [])[:0]):
             states = [(st, [])]
@@ -263,9 +299,11 @@ class IdxAnalyzer(Analyzer):
                     pk = ce.get('pk', [])
                     for rv, s2 in rets:
                         # outputs by reference: the caller's variables become unknown (their new values are the callee's)
+                        fin = getattr(s2, 'callee_final', {})
                         for ai, a in enumerate(args[off:]):
                             if ai < len(pk) and pk[ai] in ('r', 'p'):
-                                self.assign(f, a, UNK, s2)
+                                nv = fin.get(callee.params[ai]['d'], UNK) if ai < len(callee.params) else UNK
+                                self.assign(f, a, nv, s2)
                         out.append((rv, s2))
             finally:
                 self.depth -= 1
@@ -310,7 +348,10 @@ def rule_X7r(ctx, files, values=range(-2, 14)):
                 if ints and p['d'] == ints[0]['d']:
                     st.env[p['d']] = Lin.const(pv)
                 elif p['t'].replace('const ', '') == 'bool':
-                    continue
+                    b = an.fresh('flag_' + p['name'], st, True, loose=False)
+                    st.sys.add_le(Lin.const(0), b)
+                    st.sys.add_le(b, Lin.const(1))
+                    st.env[p['d']] = b
                 elif p.get('float') or p.get('int'):
                     st.env[p['d']] = an.fresh('arg_' + p['name'], st, bool(p.get('int')), loose=False)
             an.cur_args = '%s=%s' % (ints[0]['name'], pv) if ints else ''
